@@ -218,16 +218,22 @@ func runUndo(cfg *config) error {
 	perKind := map[string]int{}
 	viol := func(kind, detail string, replay any, sig map[string]any) {
 		res.count("fail." + kind)
-		pk := fmt.Sprintf("%s|%v", kind, sig["flavor"])
+		pk := fmt.Sprintf("%s|%v", kind, sig) // per kind and signature: a known finding must not use up the examples of a kind
 		if perKind[pk] < 2 && len(res.Violations) < 20 {
 			perKind[pk]++
 			res.Violations = append(res.Violations, Violation{Kind: kind, Detail: detail, Replay: replay, Sig: sig})
 		}
 	}
 	// ---------- stream 1: content edits with the model ----------
-	n1 := cfg.n
-	for i := 0; i < n1; i++ {
-		cr := r.Fork()
+	type sessionOut struct {
+		bad          bool
+		kind, detail string
+		steps, log   []string
+		usedGC       bool
+	}
+	// one session of stream 1; quiet = a re-run for the signature of a failure (no counting);
+	// noGC = the same program without its garbage-collection steps
+	session := func(cr *rng.R, i int, noGC, quiet bool) sessionOut {
 		d := newDrained("undo", 1)
 		_ = d.Update(func(root *json.Object, p *presence.Presence) error {
 			hist.SetupEdits(root, "oatcn")
@@ -247,15 +253,21 @@ func runUndo(cfg *config) error {
 		if long {
 			nsteps = cr.Range(60, 90)
 		}
+		fkind, fdetail := "", ""
+		usedGC := false
 		fail := func(kind, detail string) {
+			if !bad {
+				fkind, fdetail = kind, fmt.Sprintf("session %d: %s", i, detail)
+			}
 			bad = true
-			viol(kind, fmt.Sprintf("session %d: %s", i, detail), map[string]any{"seed": cfg.seed, "session": i, "steps": log}, map[string]any{"flavor": "content"})
 		}
 		doUndo := func(j int) bool {
 			can := d.CanUndo()
 			wantCan := pos > floor
 			log = append(log, fmt.Sprintf("Z can=%v", can))
-			res.Evaluations++
+			if !quiet {
+				res.Evaluations++
+			}
 			if can != wantCan {
 				fail("can-undo-wrong", fmt.Sprintf("CanUndo = %v after step %d, expected %v (position %d, oldest reachable %d)", can, j, wantCan, pos, floor))
 				return false
@@ -278,7 +290,9 @@ func runUndo(cfg *config) error {
 			can := d.CanRedo()
 			wantCan := pos < len(recorded)-1
 			log = append(log, fmt.Sprintf("Y can=%v", can))
-			res.Evaluations++
+			if !quiet {
+				res.Evaluations++
+			}
 			if can != wantCan {
 				fail("can-redo-wrong", fmt.Sprintf("CanRedo = %v after step %d, expected %v", can, j, wantCan))
 				return false
@@ -298,9 +312,9 @@ func runUndo(cfg *config) error {
 			return can
 		}
 		for j := 0; j < nsteps && !bad; j++ {
-			w := []int{6, 3, 2, 1, 1}
+			w := []int{6, 3, 2, 1, 1, 1}
 			if long && j < 56 {
-				w = []int{1, 0, 0, 0, 0}
+				w = []int{1, 0, 0, 0, 0, 0}
 			}
 			switch cr.Pick(w...) {
 			case 0:
@@ -342,6 +356,22 @@ func runUndo(cfg *config) error {
 			case 3: // drain: undo as far as it goes (the undo stack empty, everything on the redo stack)
 				for k := 0; k < 60 && !bad && doUndo(j); k++ {
 				}
+			case 5: // everything so far has been acknowledged by everybody: tombstones are purged (what a
+				// synced client does on its own; an undo afterwards has to re-create what it restores)
+				if noGC {
+					break
+				}
+				n := d.GarbageCollect(d.VersionVector().DeepCopy())
+				log = append(log, fmt.Sprintf("G purged=%d", n))
+				if n > 0 {
+					usedGC = true
+				}
+				if !quiet {
+					res.count("gc-steps")
+				}
+				if _, cur := observe(d); cur != recorded[pos] {
+					fail("gc-changed-content", fmt.Sprintf("garbage collection changed the content to %s", cur))
+				}
 			case 4: // and redo as far as it goes
 				for k := 0; k < 60 && !bad && doRedo(j); k++ {
 				}
@@ -350,8 +380,52 @@ func runUndo(cfg *config) error {
 				fail("clone-differs", "Root().Marshal() != Marshal() after step "+fmt.Sprint(j))
 			}
 		}
+		return sessionOut{bad, fkind, fdetail, steps, log, usedGC}
+	}
+	sameChars := func(detail string) bool {
+		// "... the content is X but was Y ...": do X and Y hold the same characters?
+		i1, i2 := strings.Index(detail, "the content is "), strings.Index(detail, " but was ")
+		if i1 < 0 || i2 < 0 {
+			return false
+		}
+		x := detail[i1+len("the content is ") : i2]
+		y := detail[i2+len(" but was "):]
+		if k := strings.Index(y, ")"); k >= 0 && strings.Count(x, ")") > 0 {
+			y = y[:strings.LastIndex(y, ")")+1]
+		}
+		canon := func(s string) string {
+			f := strings.FieldsFunc(s, func(r rune) bool { return r == ' ' || r == ';' || r == '[' || r == ']' || r == '(' || r == ')' })
+			sort.Strings(f)
+			return strings.Join(f, ",")
+		}
+		return canon(x) == canon(y)
+	}
+	n1 := cfg.n
+	for i := 0; i < n1; i++ {
+		cr := r.Fork()
+		saved := *cr
+		out := session(cr, i, false, false)
+		steps, log := out.steps, out.log
+		if out.bad {
+			sig := map[string]any{"flavor": "content", "gc_needed": false, "deterministic": true, "same_characters": sameChars(out.detail)}
+			if out.usedGC {
+				c2 := saved
+				sig["gc_needed"] = !session(&c2, i, true, true).bad
+			}
+			for k := 0; k < 5; k++ {
+				c3 := saved
+				if o3 := session(&c3, i, false, true); !o3.bad || o3.detail != out.detail {
+					sig["deterministic"] = false
+				}
+			}
+			viol(out.kind, out.detail, map[string]any{"seed": cfg.seed, "session": i, "steps": log}, sig)
+		}
 		seen.add(strings.Join(log, ";"))
-		if len(cases) < 400 {
+		// a session that failed an oracle is reported with its own failing input above; only the
+		// sessions that passed go to the model as well
+		if out.bad {
+			res.count("sessions.failed-not-replayed-through-the-model")
+		} else if len(cases) < 400 {
 			cases = append(cases, fmt.Sprintf("(UCase %s)", coqfmt.List(steps)))
 			res.CaseIndex = append(res.CaseIndex, map[string]any{"session": i, "steps": log})
 		}
